@@ -9,7 +9,7 @@ use serde_json::{json, Value};
 use std::sync::atomic::Ordering;
 use std::sync::Arc;
 
-pub const COUNTERS: &[&str] = &["between_pairs", "between_nonempty", "line_pairs", "line_nonempty", "line_same_square_not_judged", "leaper_squares", "ray_squares", "pawn_cases", "pawn_double_steps_allowed", "pawn_double_steps_blocked", "rank_file_sets", "step_helper_calls", "step_helper_edge_cases", "square_bijection"];
+pub const COUNTERS: &[&str] = &["between_pairs", "between_nonempty", "line_pairs", "line_nonempty", "line_same_square_not_judged", "leaper_squares", "ray_squares", "pawn_cases", "pawn_double_steps_allowed", "pawn_double_steps_blocked", "rank_file_sets", "step_helper_calls", "step_helper_edge_cases", "square_bijection", "large_index_calls", "ordered_call_pairs", "fresh_process_first_calls"];
 
 fn set(v: impl IntoIterator<Item = (i8, i8)>) -> u64 {
     let mut b = 0u64;
@@ -283,16 +283,156 @@ pub fn check_all(run: &Run) {
         run.add("square_bijection", 1);
         ev(1);
     }
+    // Rank / File from_index far beyond the table: "if i > 7, wrap around" must hold for every usize;
+    // catalogue: 0..=4096, every 2^k + d and 2^k - d (k <= 63, d <= 16), usize::MAX - d, and multiples of
+    // odd constants
+    {
+        let mut idx: Vec<usize> = (0..=4096usize).collect();
+        for k in 3..64u32 {
+            for d in 0..=16usize {
+                idx.push((1usize << k).wrapping_add(d));
+                idx.push((1usize << k).wrapping_sub(d));
+            }
+        }
+        for d in 0..=64usize {
+            idx.push(usize::MAX - d);
+            idx.push((usize::MAX / 2).wrapping_add(d));
+            idx.push((usize::MAX / 2) - d);
+            idx.push(0x9E37_79B9_7F4A_7C15usize.wrapping_mul(d + 1));
+        }
+        for i in idx {
+            guard::crumb_text(&format!("Rank/File::from_index({i})"));
+            let r = guard::lib(|| Rank::from_index(i).to_index());
+            let f = guard::lib(|| File::from_index(i).to_index());
+            if r != Ok(i % 8) || f != Ok(i % 8) {
+                fail(run, "rank-file-helpers", "from_index beyond 7 must wrap", format!("Rank::from_index({i}) = {:?}, File::from_index({i}) = {:?}, expected index {}", r, f, i % 8), json!({"kind": "geometry", "fn": "from_index", "index": i.to_string()}));
+            }
+            run.add("large_index_calls", 2);
+            ev(2);
+        }
+    }
+    // call-order independence: the functions are pure, so an earlier call (with ANY argument, also the
+    // not-judged line(a, a)) must not change a later answer.  Every ordered pair (first call, second call)
+    // over the complete 64x64 domain of between and line: the first call's answer is ignored, the second
+    // is compared with the definition.
+    for (name, f) in [("line", chess::line as fn(Square, Square) -> BitBoard), ("between", chess::between as fn(Square, Square) -> BitBoard)] {
+        for a in 0..64u8 {
+            for b in 0..64u8 {
+                guard::crumb_text(&format!("{name}({}, {}) as the earlier call", sqn(a), sqn(b)));
+                let _ = guard::lib(|| f(lsq(a), lsq(b)).0);
+                // all later calls that share a square or a line with the first one, plus a spread
+                for c in 0..64u8 {
+                    for d in 0..64u8 {
+                        if c == d && name == "line" {
+                            continue;
+                        }
+                        let got = f(lsq(c), lsq(d)).0;
+                        let want = if name == "line" { ref_line(c, d) } else { ref_between(c, d) };
+                        if got != want {
+                            fail(run, name, "answer depends on an earlier call", format!("{name}({}, {}) = {:?} after the call {name}({}, {}), expected {:?}", sqn(c), sqn(d), bbs(got), sqn(a), sqn(b), bbs(want)), json!({"kind": "geometry", "fn": name, "a": sqn(c), "b": sqn(d), "after": [sqn(a), sqn(b)]}));
+                            return;
+                        }
+                    }
+                }
+                run.add("ordered_call_pairs", 4096);
+                ev(4096);
+            }
+        }
+    }
     if Square::default() != lsq(0) {
         fail(run, "square-bijection", "default", "Square::default() is not a1".into(), json!({"kind": "geometry", "fn": "default"}));
     }
 }
 
-pub const RULE: &str = "complete enumeration: between and line on all 64x64 pairs (line(a,a) is not judged: the statement defines line only for two squares); king, knight moves and rook, bishop rays on 64 squares; pawn attacks / quiets / moves on 64 squares x 2 colours x all 16 occupancies of the two push and two capture squares x noise on the irrelevant squares (none, all, two checkerboards, every single irrelevant square, every pair of irrelevant squares, population ladders (k lowest / highest / spread irrelevant squares for every k), every triple of irrelevant squares within distance 2 of the pawn); rank, file, adjacent-file sets and EDGES; all 16 square stepping helpers on 64 squares; Rank/File wrapping helpers; make_square/get_rank/get_file bijection. Oracle: definitions on integer (file, rank) coordinates. distinct_nontrivial = cases whose expected answer is a non-empty set or an edge case (None / wrap)";
+/// Child process: ONE earlier call in a fresh process (all lazily built or cached state of the
+/// library is in its initial state), then the complete domain as later calls.
+pub fn first_call_worker(name: &str, a: u8, b: u8) -> i32 {
+    let f = if name == "line" { chess::line as fn(Square, Square) -> BitBoard } else { chess::between as fn(Square, Square) -> BitBoard };
+    let _ = guard::lib(|| f(lsq(a), lsq(b)).0);
+    for c in 0..64u8 {
+        for d in 0..64u8 {
+            if c == d && name == "line" {
+                continue;
+            }
+            let got = guard::lib(|| f(lsq(c), lsq(d)).0);
+            let want = if name == "line" { ref_line(c, d) } else { ref_between(c, d) };
+            if got != Ok(want) {
+                println!("MISMATCH {} {} {:?} {:?}", sqn(c), sqn(d), got.map(bbs), bbs(want));
+                return 0;
+            }
+        }
+    }
+    println!("OK");
+    0
+}
+
+/// Every first call of line / between (4096 each, line(a, a) included) in its own fresh process.
+pub fn fresh_process_first_calls(run: &Run, only: Option<(&str, u8, u8)>) {
+    use rayon::prelude::*;
+    let exe = match std::env::current_exe() {
+        Ok(e) => e,
+        Err(e) => {
+            eprintln!("MACHINERY FAILURE: current_exe: {e}");
+            std::process::exit(2);
+        }
+    };
+    let mut jobs: Vec<(&str, u8, u8)> = vec![];
+    match only {
+        Some(j) => jobs.push(j),
+        None => {
+            for name in ["line", "between"] {
+                for a in 0..64u8 {
+                    for b in 0..64u8 {
+                        jobs.push((name, a, b));
+                    }
+                }
+            }
+        }
+    }
+    jobs.par_iter().for_each(|(name, a, b)| {
+        if run.has_violation() {
+            return;
+        }
+        let out = std::process::Command::new(&exe).args(["C16-first-call-worker", name, &a.to_string(), &b.to_string()]).output();
+        match out {
+            Ok(o) if o.status.success() => {
+                let txt = String::from_utf8_lossy(&o.stdout);
+                if let Some(l) = txt.lines().find(|l| l.starts_with("MISMATCH")) {
+                    let w: Vec<&str> = l.splitn(4, ' ').collect();
+                    fail(run, name, "answer depends on the first call made in the process", format!("in a fresh process, after {name}({}, {}): {name}({}, {}) gives {}", sqn(*a), sqn(*b), w.get(1).unwrap_or(&"?"), w.get(2).unwrap_or(&"?"), w.get(3).unwrap_or(&"?")), json!({"kind": "first-call", "fn": name, "a": a, "b": b}));
+                } else if !txt.contains("OK") {
+                    eprintln!("MACHINERY FAILURE: first-call worker printed neither OK nor MISMATCH: {txt}");
+                    std::process::exit(2);
+                }
+                run.add("fresh_process_first_calls", 1);
+                run.evaluations.fetch_add(4096, Ordering::Relaxed);
+            }
+            Ok(o) => {
+                // the child died: a non-unwinding panic inside the library prints a VIOLATION line itself
+                let txt = String::from_utf8_lossy(&o.stdout);
+                if txt.contains("VIOLATION") {
+                    fail(run, name, "abort in a fresh process", format!("in a fresh process, {name}({}, {}) then the complete domain: {}", sqn(*a), sqn(*b), txt.lines().next().unwrap_or("")), json!({"kind": "first-call", "fn": name, "a": a, "b": b}));
+                } else {
+                    eprintln!("MACHINERY FAILURE: first-call worker exited with {:?}: {}", o.status, String::from_utf8_lossy(&o.stderr));
+                    std::process::exit(2);
+                }
+            }
+            Err(e) => {
+                eprintln!("MACHINERY FAILURE: cannot start the first-call worker: {e}");
+                std::process::exit(2);
+            }
+        }
+    });
+}
+
+pub const RULE: &str = "complete enumeration: between and line on all 64x64 pairs (line(a,a) is not judged: the statement defines line only for two squares); king, knight moves and rook, bishop rays on 64 squares; pawn attacks / quiets / moves on 64 squares x 2 colours x all 16 occupancies of the two push and two capture squares x noise on the irrelevant squares (none, all, two checkerboards, every single irrelevant square, every pair of irrelevant squares, population ladders (k lowest / highest / spread irrelevant squares for every k), every triple of irrelevant squares within distance 2 of the pawn); rank, file, adjacent-file sets and EDGES; all 16 square stepping helpers on 64 squares; Rank/File wrapping helpers; make_square/get_rank/get_file bijection; Rank/File::from_index on a catalogue of large indices (0..=4096, 2^k +- d for every k <= 63, usize::MAX - d); call-order independence of line and between: every ordered pair of calls over the complete 64x64 domain (16.7 M pairs each; the earlier call may be the not-judged line(a, a)), in process, and again with each of the 2 x 4096 possible FIRST calls made in a fresh child process (initial state of every lazily built table or cache) followed by the complete domain. Oracle: definitions on integer (file, rank) coordinates. distinct_nontrivial = cases whose expected answer is a non-empty set or an edge case (None / wrap)";
 
 pub fn run(tier: Tier) -> i32 {
     let run = Arc::new(Run::new("C16", tier, COUNTERS));
     check_all(&run);
+    if !run.has_violation() {
+        fresh_process_first_calls(&run, None);
+    }
     let nt = run.get("between_nonempty") + run.get("line_nonempty") + run.get("pawn_double_steps_allowed") + run.get("pawn_double_steps_blocked") + run.get("step_helper_edge_cases") + 256;
     run.nontrivial.store(nt, Ordering::Relaxed);
     run.sample(json!({"kind": "pair", "call": "between(a1, h8)", "expected": bbs(ref_between(0, 63))}));
@@ -301,9 +441,14 @@ pub fn run(tier: Tier) -> i32 {
     run.assume("the noise on squares irrelevant to a pawn is a catalogue (none, all, checkerboards, all singles, all pairs), not all 2^60 subsets");
     run.finish("exploration", RULE, true, json!({}))
 }
-pub fn replay(_case: &Value) -> i32 {
+pub fn replay(case: &Value) -> i32 {
     // the whole domain is enumerated in well under a second: replay = run it all again
     let run = Arc::new(Run::new("C16", Tier::Quick, COUNTERS));
+    if case["kind"] == "first-call" {
+        let name = if case["fn"] == "line" { "line" } else { "between" };
+        fresh_process_first_calls(&run, Some((name, case["a"].as_u64().unwrap_or(0) as u8, case["b"].as_u64().unwrap_or(0) as u8)));
+        return crate::replay_verdict(&run);
+    }
     check_all(&run);
     crate::replay_verdict(&run)
 }
